@@ -118,6 +118,14 @@ func (p *Prog) Contexts() *CtxInfo {
 		// nested literals that are not posted / go'ed / timers inherit the parent's context (called inline,
 		// assigned to a local and called, deferred, or passed to a synchronous helper such as sort.Slice)
 		for _, l := range f.Lits {
+			// a literal bound to a local variable that is only ever CALLED runs where it is called — possibly inside
+			// another literal of f that is started with go (connectOnce := func() {…}; go func() { for { connectOnce() } }())
+			if callers := localClosureCallers(p, f, l); callers != nil {
+				for _, from := range callers {
+					edges = append(edges, callEdge{from, l})
+				}
+				continue
+			}
 			edges = append(edges, callEdge{f, l})
 		}
 		// entry points for arbitrary goroutines: the exported API of package manager (methods of Manager, View,
@@ -251,6 +259,90 @@ func (c *CtxInfo) completionsIn(f *Fn) []*Fn {
 	for _, l := range c.postedIn(f) {
 		e, _ := c.effective(l)
 		out = append(out, e)
+	}
+	return out
+}
+
+// localClosureCallers: if the literal l (a direct child of f) is the right side of `v := func…` / `v = func…` /
+// `var v = func…` for a local v of f, and every other mention of v in f (nested literals included) is the callee of a
+// call, the functions (f or literals below it) in which those calls stand; nil otherwise (the literal then inherits
+// f's context as before).
+func localClosureCallers(p *Prog, f *Fn, l *Fn) []*Fn {
+	info := f.Pkg.TypesInfo
+	var v types.Object
+	inspectShallow(f.Body(), func(x ast.Node) bool {
+		switch s := x.(type) {
+		case *ast.AssignStmt:
+			if len(s.Lhs) == len(s.Rhs) {
+				for i, rh := range s.Rhs {
+					if ast.Unparen(rh) == ast.Expr(l.Lit) {
+						v = identObj(info, s.Lhs[i])
+					}
+				}
+			}
+		case *ast.ValueSpec:
+			for i, rh := range s.Values {
+				if ast.Unparen(rh) == ast.Expr(l.Lit) && i < len(s.Names) {
+					v = info.Defs[s.Names[i]]
+				}
+			}
+		}
+		return true
+	})
+	if v == nil {
+		return nil
+	}
+	seen := map[*Fn]bool{}
+	var out []*Fn
+	escapes := false
+	inspectParents(f.Body(), func(x ast.Node, ps []ast.Node) bool { return true })
+	var walk func(g *Fn)
+	walk = func(g *Fn) {
+		inspectParents(g.Body(), func(x ast.Node, ps []ast.Node) bool {
+			id, ok := x.(*ast.Ident)
+			if !ok || info.Uses[id] != v || len(ps) == 0 {
+				return true
+			}
+			switch par := ps[len(ps)-1].(type) {
+			case *ast.CallExpr:
+				if ast.Unparen(par.Fun) == ast.Expr(id) {
+					// a call started with go or deferred still runs in g's goroutine only for defer
+					if len(ps) >= 2 {
+						if _, isGo := ps[len(ps)-2].(*ast.GoStmt); isGo {
+							escapes = true
+							return true
+						}
+					}
+					if !seen[g] {
+						seen[g] = true
+						out = append(out, g)
+					}
+					return true
+				}
+				escapes = true
+			case *ast.AssignStmt:
+				for _, lh := range par.Lhs {
+					if lh == ast.Expr(id) {
+						return true // a (re)definition
+					}
+				}
+				escapes = true
+			default:
+				escapes = true
+			}
+			return true
+		})
+		for _, sub := range g.Lits {
+			if sub != l {
+				walk(sub)
+			} else {
+				walk(sub) // recursion inside the literal itself
+			}
+		}
+	}
+	walk(f)
+	if escapes || len(out) == 0 {
+		return nil
 	}
 	return out
 }
